@@ -426,6 +426,7 @@ def run(rep, tier):
         rep.call(row_coverage.group_tail, rep, prog, "C01.kernel-rows")
         from ..engines import simd_rules as _simd
         rep.call(_simd.native_clip, rep, prog, "C01.native-clip")
+        rep.call(_simd.tail_initial, rep, prog, "C01.tail-initial", {"x86": 4}.get(cfg, 1))
         if cfg.startswith("x86"):
             from ..engines import lanepair
             rep.call(lanepair.pairing, rep, prog, "C01.lane-pairing")
